@@ -297,7 +297,7 @@ def structural_type(t):
         return frozenset([{"list": "list", "set": "set", "dict": "dict", "gen": "generator"}[t[1]]])
     if k == "closure" or k == "partial":
         return frozenset(["function"])
-    if k == "nt":
+    if k == "nt" or (k == "obj" and len(t) == 3):
         return frozenset(["obj:" + t[1]])
     if k == "call":
         r = RET_TYPES.get(t[1])
@@ -383,6 +383,7 @@ class Walker:
         a = self.fi.node.args
         params = a.posonlyargs + a.args + a.kwonlyargs
         first = True
+        fa = getattr(self, "funargs", None)
         for arg in params:
             if first and self.fi.cls and self.fi.is_classmethod:
                 st.env[arg.arg] = G("class:" + (self.clsbind or self.fi.mod.short + "." + self.fi.cls))
@@ -395,7 +396,7 @@ class Walker:
                 st.env[arg.arg] = fa[arg.arg]  # specialised on a function-valued argument
             first = False
         if a.vararg:
-            st.env[a.vararg.arg] = P("*" + a.vararg.arg)
+            st.env[a.vararg.arg] = fa["*" + a.vararg.arg] if fa and ("*" + a.vararg.arg) in fa else P("*" + a.vararg.arg)
         if a.kwarg:
             st.env[a.kwarg.arg] = P("**" + a.kwarg.arg)
         if self.fi.parent is not None:
@@ -692,6 +693,8 @@ class Walker:
                     continue
                 s3 = s2.copy()
                 s3.ev("store", self.site(node), ("attr", b, t.attr), val)
+                if isinstance(b, tuple) and len(b) == 3 and b[0] == "obj":
+                    heap_store(s3, b, t.attr, val)
                 outs.append((s3, "fall", None))
             return outs
         if isinstance(t, ast.Starred):
@@ -1381,10 +1384,10 @@ class Walker:
             comp = t[2][0]
             a = s.copy()
             a.add(("truthy", t))
-            cf = self.comp_facts.get((comp[2], comp[4]))
+            cf = self._comp_lookup("facts", comp)
             if cf:
                 a.add(("forall", self._comp_base(comp), comp[4], cf))
-            alts = self.comp_alts.get((comp[2], comp[4]))
+            alts = self._comp_lookup("alts", comp)
             if alts and len(alts[0]) > 1 and all(alts[0]):
                 a.add(("forallalt", self._comp_base(comp), comp[4], alts[0]))
             b = s.copy()
@@ -1399,7 +1402,7 @@ class Walker:
             a.add(("truthy", t), ("nonempty", comp[2]))
             b = s.copy()
             b.add(("falsy", t))
-            alts = self.comp_alts.get((comp[2], comp[4]))
+            alts = self._comp_lookup("alts", comp)
             if alts:
                 if alts[0]:
                     a.add(("exists", self._comp_base(comp), comp[4], alts[0]))
@@ -1414,6 +1417,23 @@ class Walker:
         b = s.copy()
         b.add(("falsy", t))
         return [(a, "true", None), (b, "false", None)]
+
+    def _comp_lookup(self, what, comp):
+        """per-element facts of the comprehension a comp term came from - also when the
+        comprehension was evaluated in a callee (a predicate returning all(...)) and the result is
+        tested here: the facts are re-expressed over this caller's iterable term"""
+        local = (self.comp_facts if what == "facts" else self.comp_alts).get((comp[2], comp[4]))
+        if local is not None:
+            return local
+        hit = self.eng.__dict__.get("_comp_store", {}).get((what, comp[4]))
+        if hit is None:
+            return None
+        it0, val = hit
+        if it0 == comp[2]:
+            return val
+        from .terms import _subst
+
+        return _subst(val, {it0: comp[2]})
 
     def _comp_base(self, comp):
         it = comp[2]
@@ -1494,10 +1514,11 @@ class Walker:
             t = G("class:" + r[1])
         elif k == "const":
             t = G("const:%s.%s" % (r[1], r[2]))
-            if not rest:
-                folded = self.eng.immutable_const(r[1], r[2])
-                if folded is not None:
+            folded = self.eng.immutable_const(r[1], r[2])
+            if folded is not None:
+                if not rest:
                     return folded
+                t = folded
         elif k == "ext":
             t = G("ext:" + r[1])
         elif k == "extmod":
@@ -1562,6 +1583,17 @@ class Walker:
                 lit = self.eng.const_literal(b[1][6:])
                 if lit is not None and lit[0] == "nt":
                     nt = lit
+            if b[0] == "obj" and len(b) == 3:
+                heap = s.env.get("$heap", {})
+                if (b, e.attr) in heap:
+                    outs.append((s, "val", heap[(b, e.attr)]))
+                    continue
+                if self.prog.find_method(b[1], e.attr) is not None:
+                    outs.append((s, "val", ("attr", b, e.attr)))
+                    continue
+                self.rz(outs, s, e, "AttributeError", "attribute %s of a %s object may not be set" % (e.attr, b[1]), [("nohasattr", b, e.attr)])
+                outs.append((s, "val", ("attr", b, e.attr)))
+                continue
             if nt[0] == "nt" and len(nt) == 3:
                 ci = self.prog.classes.get(nt[1])
                 names = [n for n, _d in ci.nt_fields()] if ci is not None else []
@@ -1871,6 +1903,12 @@ class Walker:
     def e_Subscript(self, e, st):
         cur, outs = self.seq([e.value, e.slice], st)
         for s, (b, k) in cur:
+            if isinstance(b, tuple) and len(b) == 2 and b[0] == "global" and b[1].startswith("const:"):
+                lit = self.eng.const_literal(b[1][6:])
+                if lit is not None and ((is_lit(lit) and lit[1] == "tuple") or lit[0] == "nt"):
+                    b = lit  # a module-level tuple / record: immutable, its items are known
+            if is_const(k) and isinstance(k[2], bool):
+                k = C(int(k[2]))  # a bool used as an index is 0 / 1
             t = Sub(b, k)
             # a literal dict display indexed by a constant key: the value itself
             if is_lit(b, "dict") and is_const(k):
@@ -1981,8 +2019,10 @@ class Walker:
             if truthy_facts and not g.ifs:
                 keep = frozenset(f for f in truthy_facts if _mentions(f, el))
                 self.comp_facts[(it, loop_id)] = keep
+                self.eng.__dict__.setdefault("_comp_store", {})[("facts", loop_id)] = (it, keep)
             if not g.ifs and kind != "dict":
                 self.comp_alts[(it, loop_id)] = (frozenset(truthy_alts), frozenset(falsy_alts))
+                self.eng.__dict__.setdefault("_comp_store", {})[("alts", loop_id)] = (it, (frozenset(truthy_alts), frozenset(falsy_alts)))
             s2 = s.copy()
             s2.ev("loop", self.site(e), base, el, tuple(body_paths))
             if kind != "gen" and not g.ifs and body_paths:
@@ -2217,6 +2257,14 @@ def _as_load(t):
     for x in ast.walk(t2):
         ast.copy_location(x, t)
     return t2
+
+
+def heap_store(s, obj, attr, val):
+    """record obj.attr = val in the path state (copy on write)"""
+    heap = dict(s.env.get("$heap", {}))
+    heap[(obj, attr)] = val
+    s.env["$heap"] = heap
+    s.add(("hasattr", obj, attr))
 
 
 def _names_of_target(t):
